@@ -81,10 +81,21 @@ Section Cell.
   Variable ser : cell -> res (list N).              (* Cell.ToBoc *)
   Variable deser : list N -> res (list cell).       (* boc.DeserializeBoc *)
   Definition print_cell (c : cell) : res str := do bs <- ser c; Ok (quote (print_hex bs)).
+  (* cells[0]: indexing an empty slice panics *)
+  Definition go_index0 (cs : list cell) : res cell :=
+    match cs with c :: _ => Ok c | [] => Panic PIndex end.
+  (* if len(cells) != 1 { return error }; *c = *cells[0] *)
   Definition parse_cell (p : str) : res cell :=
     match hex_decode (trim_quotes p) with
     | None => Err EInvalidHex
-    | Some bs => do cs <- deser bs; match cs with [c] => Ok c | _ => Err EOther end
+    | Some bs => do cs <- deser bs; if len_is 1 cs then go_index0 cs else Err EOther
+    end.
+  (* a design that rejects only MORE than one root (kept for Proofs/C20History.v):
+     a well-formed bag of cells with zero roots reaches cells[0] *)
+  Definition parse_cell_gt1 (p : str) : res cell :=
+    match hex_decode (trim_quotes p) with
+    | None => Err EInvalidHex
+    | Some bs => do cs <- deser bs; if short 2 cs then go_index0 cs else Err EOther
     end.
 End Cell.
 
